@@ -453,7 +453,7 @@ func (m *Machine) indexAddr(base Value, idx *T, it types.Type) Value {
 		if ai.IsC {
 			return Ptr{L: b.AL.sub[ai.C]}
 		}
-		if len(b.AL.sub) > 300 {
+		if len(b.AL.sub) > 300 || (len(b.AL.sub) > 0 && b.AL.sub[0].sub != nil) {
 			k := m.conc(ai, 512)
 			return Ptr{L: b.AL.sub[k]}
 		}
@@ -474,7 +474,8 @@ func (m *Machine) indexAddr(base Value, idx *T, it types.Type) Value {
 		if i.IsC {
 			return Ptr{L: l.sub[i.C]}
 		}
-		if len(l.sub) > 300 {
+		if len(l.sub) > 300 || (len(l.sub) > 0 && l.sub[0].sub != nil) {
+			// big arrays and arrays of structs/arrays: case split on the index
 			k := m.conc(i, 512)
 			return Ptr{L: l.sub[k]}
 		}
